@@ -304,6 +304,8 @@ def _worker_main(modname, tier, widx, nworkers, seed, stale, rundir, stage_dir):
         sys.path.insert(0, stage_dir)
         os.environ['VERIF_STAGE_DIR'] = stage_dir
         import importlib
+        import logging
+        logging.getLogger('be.kuleuven.dtai.distance').setLevel(logging.CRITICAL)
         mod = importlib.import_module(modname)
         known = Known(mod, stale)
         inflight = _Inflight(os.path.join(rundir, 'w%d.inflight' % widx))
